@@ -4,7 +4,7 @@ from facts import walk, short, pp
 import hirutil as H
 
 LEVEL = 'other'
-TECHNIQUE = 'work-list termination guard (control dependence of push on visited-insert), sibling agreement of the four lookup wrappers, writer/reader index and key agreement over typed HIR, small combinator algebra over Option/Result for error handling in the walkers'
+TECHNIQUE = 'work-list termination guard (control dependence of push on visited-insert), sibling agreement of the four lookup wrappers, writer/reader index and key agreement over typed HIR, small combinator algebra over Option/Result for error handling in the walkers + owner agreement (an entry is handed out with the class whose table it was found in)'
 LEVEL_TEXT = ('Decides the structural conditions on which every query depends: the breadth-first ancestor iterator only queues a class '
               'after a successful visited-insert and pops exhausted queues (termination on cyclic graphs); "derives from" tests self '
               'first and turns walk errors into "not derived"; property/method/type/enum-variant lookups all go through the one '
